@@ -1,7 +1,7 @@
 #!/bin/sh
 # seed_confirm.sh Cxx k — confirm a seeded change in its scratch worktree: applies, compiles,
 # passes the existing tests, and the demonstration's output differs from the original tree's.
-P=$1; K=$2; W=/tmp/seed/$P; O=/tmp/seed/out/$P
+P=$1; K=$2; SR=${SEED_ROOT:-/tmp/seed}; W=$SR/$P; O=$SR/out/$P
 cd $W || exit 2
 git checkout -q -- . ; git status --short | grep -v '^??' && { echo "worktree dirty"; exit 2; }
 DEMO=$O/demo$K.tcl
@@ -14,13 +14,13 @@ run_demo() {
   fi
 }
 CARGO_NET_OFFLINE=true cargo build -q --offline 2>/dev/null
-run_demo > /tmp/seed/out/$P/confirm$K.orig.out
+run_demo > $O/confirm$K.orig.out
 git apply $O/patch$K.diff || { echo "patch does not apply"; exit 1; }
-CARGO_NET_OFFLINE=true cargo test --workspace --no-fail-fast --offline 2>&1 | grep -E "^test result|^error" > /tmp/seed/out/$P/confirm$K.tests
-if grep -q "FAILED\|^error" /tmp/seed/out/$P/confirm$K.tests; then echo "TESTS FAIL"; cat /tmp/seed/out/$P/confirm$K.tests; git checkout -q -- .; exit 1; fi
+CARGO_NET_OFFLINE=true cargo test --workspace --no-fail-fast --offline 2>&1 | grep -E "^test result|^error" > $O/confirm$K.tests
+if grep -q "FAILED\|^error" $O/confirm$K.tests; then echo "TESTS FAIL"; cat $O/confirm$K.tests; git checkout -q -- .; exit 1; fi
 CARGO_NET_OFFLINE=true cargo build -q --offline 2>/dev/null
-run_demo > /tmp/seed/out/$P/confirm$K.mut.out
+run_demo > $O/confirm$K.mut.out
 git checkout -q -- .
-if cmp -s /tmp/seed/out/$P/confirm$K.orig.out /tmp/seed/out/$P/confirm$K.mut.out; then echo "NO OBSERVABLE DIFFERENCE"; exit 1; fi
-echo "CONFIRMED $P/$K: tests pass ($(grep -c 'test result: ok' /tmp/seed/out/$P/confirm$K.tests) binaries ok), demo output differs"
-diff /tmp/seed/out/$P/confirm$K.orig.out /tmp/seed/out/$P/confirm$K.mut.out | head -8
+if cmp -s $O/confirm$K.orig.out $O/confirm$K.mut.out; then echo "NO OBSERVABLE DIFFERENCE"; exit 1; fi
+echo "CONFIRMED $P/$K: tests pass ($(grep -c 'test result: ok' $O/confirm$K.tests) binaries ok), demo output differs"
+diff $O/confirm$K.orig.out $O/confirm$K.mut.out | head -8
